@@ -246,14 +246,20 @@ def _expression(expr):
             a = _expression(a)
             b = _expression(b)
 
-            if isinstance(b, int):
+            if isinstance(b, (int, np.integer)):
                 b = float(b)
 
             return np.prod([a, np.power(b, -1)], axis=0)
 
     if isinstance(expr, blackbirdParser.PowerLabelContext):
         a, b = expr.expression()
-        return np.power(_expression(a), _expression(b))
+        a = _expression(a)
+        b = _expression(b)
+
+        if isinstance(a, (int, np.integer)) and isinstance(b, (int, np.integer)) and b < 0:
+            a = float(a)
+
+        return np.power(a, b)
 
     if isinstance(expr, blackbirdParser.FunctionLabelContext):
         return _func(expr.function(), expr.expression())
